@@ -86,6 +86,18 @@ def draw_knobs(rng, hostile=True):
     k['clock.tick_us'] = [1, rng.choice([5, 20, 200])]
     return k
 
+def bound_transfer(t, knobs, budget_us=15000000):
+    """keep one scripted transfer inside a simulated-time budget: tiny segments x pacing x size must stay far below the peers' timeouts"""
+    byte_mode = knobs.get('net.seg.mode', [''])[0] == 'byte' or t.get('seg') == 'byte'
+    if byte_mode and t['size'] > 3000:
+        t['size'] = t['size'] % 3000
+    cap = knobs.get('net.seg.max', [16384])[0]
+    eff = 1 if byte_mode else max(1, min(cap, 1460) // 3)
+    nseg = t['size'] // eff + 1
+    if t.get('pace') and t['pace'] * nseg // 2 > budget_us:
+        t['pace'] = max(0, 2 * budget_us // nseg)
+    return t
+
 SIMPLE_KNOBS = {'net.seg.mode': ['whole'], 'clock.tick_us': [1, 5]}
 
 def apply_knobs(scn, knobs):
@@ -155,12 +167,14 @@ def upstream_requests_by_id(hist):
                 out.setdefault(rid, []).append((sv, r))
     return out
 
-def base_outcome(hist, require_ready=True):
+def base_outcome(hist, require_ready=True, allow_norule=False):
     """Outcome pre-filled with universal health information."""
     o = Outcome()
     o.fp = hist.fingerprint(); o.sig = hist.schedule_signature(); o.probes = dict(hist.probes); o.simsec = hist.sim_seconds()
     if require_ready and not hist.life_has('ready'):
         o.infra = 'squid never became ready: rc=%s end=%s out=%s log=%s' % (hist.rc, hist.end, hist.output[-300:], hist.cache_log()[-400:])
+    elif hist.probes.get('sim.norule') and not allow_norule:
+        o.infra = 'scenario bug: an origin received a request no rule matches'
     return o
 
 def health_violations(hist, pid):
@@ -178,3 +192,36 @@ def diff_desc(got, exp):
     n = min(len(got), len(exp))
     i = next((j for j in range(n) if got[j] != exp[j]), n)
     return 'differs at byte %d (got %d bytes, expected %d): got %r expected %r' % (i, len(got), len(exp), got[max(0, i - 8):i + 24], exp[max(0, i - 8):i + 24])
+
+# ------------------------------------------------------------------------------------------------ base class for engine-P checks
+from framework import Prop
+
+class PProp(Prop):
+    """plan -> build(plan) -> (Scn, expectation) -> run -> judge(plan, expectation, hist)"""
+    engine = 'P'
+    sim_limit_s = 1200
+    def build(self, plan):
+        raise NotImplementedError
+    def judge(self, plan, expect, hist, o):
+        raise NotImplementedError
+    def new_scn(self, plan):
+        scn = simlib.Scn(plan['sim_seed'])
+        scn.conf = make_conf(plan['conf'])
+        scn.limits['simtime_s'] = self.sim_limit_s
+        apply_knobs(scn, plan.get('knobs', {}))
+        return scn
+    def execute(self, plan, workdir):
+        scn, expect = self.build(plan)
+        hist = simlib.run_squid(scn, workdir)
+        o = base_outcome(hist)
+        if o.infra:
+            return o
+        for p in hist.health_problems():
+            o.notes.append('health (see C09/C08): ' + p)
+        self.judge(plan, expect, hist, o)
+        return o
+
+def std_plan(rng, conf=None, hostile=True):
+    plan = {'sim_seed': rng.getrandbits(48), 'knobs': draw_knobs(rng, hostile=hostile), 'conf': conf or {'cache': 'none'}}
+    plan['_simplify'] = {'knobs': SIMPLE_KNOBS}
+    return plan
